@@ -31,7 +31,7 @@ func init() {
 		Run:            run,
 		MinEvaluations: map[string]int{"quick": 20000, "thorough": 200000},
 		MinNontrivial:  map[string]int{"quick": 5000, "thorough": 50000},
-		RequiredObs:    []string{"aut>1", "classes!=nil", "reuse_history_steps", "edgeless_shortcut", "generators_checked"},
+		RequiredObs:    []string{"aut>1", "classes!=nil", "reuse_history_steps", "edgeless_shortcut", "generators_checked", "earlier_full_result_rechecked_after_next_call"},
 	})
 }
 
@@ -78,6 +78,15 @@ func copyResult(n int, perm []int, ds disjoint.Set, gens [][]int) (result, strin
 		r.orb[v] = least[rep[v]]
 	}
 	return r, ""
+}
+
+// heldFull is the most recent result of CanonicalIsomorphFull (the very slices, and a snapshot).
+var heldFull struct {
+	p    []int
+	o    disjoint.Set
+	g    [][]int
+	snap result
+	key  string
 }
 
 func isPerm(p []int, n int) bool {
@@ -188,10 +197,26 @@ func full(c *engine.Ctx, key string, g *rg.G, sparse bool, classes [][]int) (res
 	}
 	var r result
 	var bad string
+	var rawP []int
+	var rawO disjoint.Set
+	var rawG [][]int
 	pi := c.Call(key, func() {
-		p, o, gs := graph.CanonicalIsomorphFull(lg, cl)
-		r, bad = copyResult(g.N, p, o, gs)
+		rawP, rawO, rawG = graph.CanonicalIsomorphFull(lg, cl)
+		r, bad = copyResult(g.N, rawP, rawO, rawG)
 	})
+	// results of a fresh call handed out earlier must not change when the function is called again
+	if heldFull.p != nil && pi == nil {
+		c.Obs("earlier_full_result_rechecked_after_next_call", 1)
+		now, _ := copyResult(len(heldFull.snap.perm), heldFull.p, heldFull.o, heldFull.g)
+		if !eq(now.perm, heldFull.snap.perm) || fmt.Sprint(now.gens) != fmt.Sprint(heldFull.snap.gens) || !eq(now.orb, heldFull.snap.orb) {
+			c.Violation("aut|earlier-result-changed-by-a-later-call|"+heldFull.key, map[string]interface{}{"first_call": heldFull.key, "then": key}, fmt.Sprintf("perm %v orbits %v gens %v", now.perm, now.orb, now.gens), fmt.Sprintf("as returned: perm %v orbits %v gens %v", heldFull.snap.perm, heldFull.snap.orb, heldFull.snap.gens))
+			heldFull.p = nil
+			return r, pi, "an earlier result changed"
+		}
+	}
+	if pi == nil && bad == "" && g.N > 0 {
+		heldFull.p, heldFull.o, heldFull.g, heldFull.snap, heldFull.key = rawP, rawO, rawG, r, key
+	}
 	if pi == nil && classes != nil {
 		for i := range classes {
 			if !eq(cl[i], classes[i]) {
